@@ -354,6 +354,24 @@ pub fn run(ctx: &Ctx, id: &str) -> i32 {
                     }
                 }
             }
+            // a terminal that pauses (1 s, 10 s: below every per-packet timeout) before one packet and then carries on
+            // is healthy: the operation succeeds on the one connection
+            for (j, (op, p)) in jobs.iter().enumerate() {
+                if j % threads != shard {
+                    continue;
+                }
+                for secs in [1u32, 10] {
+                    let (mut sc, idx) = skeleton(*op, &base_cfg);
+                    sc.plan.faults.push(FaultSpec { call: idx, at: At::Tx(*p), kind: FaultKind::Pause(secs) });
+                    let label = format!("{op:?}: no fault, the terminal pauses {secs} s before packet {p}");
+                    let tr = run_and_judge(r, id, &sc, idx, &schema, &label, true);
+                    let opened = tr.log.iter().filter(|e| e.dir == Dir::Open).count();
+                    if !tr.calls.iter().all(|c| c.result.is_ok()) || opened != 1 {
+                        r.violation("C09: a healthy terminal is abandoned (a pause shorter than every timeout)", &format!("{label}: {} connections opened, results {:?}", opened, tr.calls.iter().map(|c| c.result.short()).collect::<Vec<_>>()), case_json(&sc, &tr));
+                    }
+                    r.count("non_fault_runs", 1);
+                }
+            }
             // random triples
             let n_triples = if quick { 3_000 } else { 1_000_000 };
             for _ in 0..n_triples / threads {
